@@ -257,23 +257,25 @@ def kill_range(st, o, symkey, c, n):
 
 def store_scalar(st, o, offterm, n, t):
     if o.weak:
-        weak_store(st, o, offterm, n)
+        weak_store(st, o, offterm, n, 'zero' if st.canon(t) == ZERO else ('const' if is_const(st.canon(t)) else 'other'))
         return
     symkey, c = off_key(st, offterm)
     kill_range(st, o, symkey, c, n)
     o.cells[(symkey, c)] = (n, t)
 
 
-def weak_store(st, o, offterm, n):
+def weak_store(st, o, offterm, n, kind='other'):
     """A store into a summary object (e.g. an already linked list node) is a weak update the cells cannot hold; it is kept as
-    an effect so that rules can ask "does anything write into existing nodes (their link field)?"."""
+    an effect so that rules can ask "does anything write into existing nodes (their link field)?" - with the class of the
+    value stored ('zero', 'const', 'other': a scrub before release stores constants, an unlink stores a pointer)."""
     symkey, c = off_key(st, offterm)
-    st.effect(('weak-store', o.id, None if symkey else c, n))
+    st.effect(('weak-store', o.id, None if symkey else c, n, kind))
 
 
 def store_bytes(st, o, offterm, bs):
     if o.weak:
-        weak_store(st, o, offterm, len(bs))
+        cb = [st.canon(b) for b in bs]
+        weak_store(st, o, offterm, len(bs), 'zero' if all(b == ZERO for b in cb) else ('const' if all(is_const(b) for b in cb) else 'other'))
         return
     symkey, c = off_key(st, offterm)
     n = len(bs)
